@@ -2,14 +2,19 @@
 
 package sets
 
-import "fmt"
+import (
+	"fmt"
+	"sort"
+)
 
 // adapter: the model-checking engine of sets_common works on int elements.
 type vImpl = StringSet
 
 const vSetKind = "StringSet"
 
-func vEl(i int) string { return fmt.Sprintf("e%02d", i) }
+// element names in both cases, neighbours differing in case only ("e05", "E05"):
+// Sorted() is byte order, as sort.Strings gives it
+func vEl(i int) string { return fmt.Sprintf("%s%02d", []string{"e", "E"}[i%2], i/2) }
 
 func vNew(els ...int) *vImpl {
 	s := make([]string, len(els))
@@ -29,7 +34,8 @@ func vSortedWant(els []int) []string {
 	for i, e := range els {
 		out[i] = vEl(e)
 	}
-	return out // els ascending and vEl is order preserving for 0..99
+	sort.Strings(out)
+	return out
 }
 
 // vScribble overwrites the slices Sorted and Elements hand out.
